@@ -15,5 +15,19 @@ for k in sorted(r):
 n = len(r); ok = sum(1 for v in r.values() if v["target_caught"])
 summary = "%d of %d seeded changes are caught by the check of the property they were written to break (bold); every change is caught by at least one check: %s.\n\n" % (
     ok, n, "yes" if all(v["caught_by"] for v in r.values()) else "NO: " + ", ".join(k for k, v in r.items() if not v["caught_by"]))
-open(os.path.join(V, "DESIGN.md"), "w").write(head + rest.replace("@@RESULTS@@", summary + "\n".join(rows)))
+import re, glob, subprocess
+counts = {}
+for f in glob.glob(os.path.join(V, "lean", "OSProofs", "Audit", "C*.lean")):
+    counts[os.path.basename(f)[:-5]] = len(re.findall(r"^#print axioms", open(f).read(), flags=re.M))
+body = rest.replace("@@RESULTS@@", summary + "\n".join(rows))
+for k, v in counts.items():
+    body = body.replace("@@N:%s@@" % k, str(v))
+names = set()
+for f in glob.glob(os.path.join(V, "lean", "OSProofs", "Audit", "*.lean")):
+    names.update(re.findall(r"^#print axioms\s+(\S+)", open(f).read(), flags=re.M))
+def wc(pattern):
+    return sum(len(open(f).read().split("\n")) for f in glob.glob(os.path.join(V, "lean", pattern), recursive=True))
+body = body.replace("@@NTOTAL@@", str(len(names))).replace("@@LINES@@", str(wc("OSProofs/**/*.lean")))
+body = body.replace("@@MLINES@@", str(wc("OSModel/*.lean") + wc("Driver.lean")))
+open(os.path.join(V, "DESIGN.md"), "w").write(head + body)
 print("DESIGN.md written:", ok, "/", n)
